@@ -57,6 +57,18 @@ def gen(rng, tier):
     # the LR parser on a right-nulled table (selectable): shorter reductions, same span rules
     cases += lf.bnf_cases(rng, max(8, n // 6), tts=("LALR_RN",), algo="LR", max_len=3, n_sent=12, n_mut=4,
                           ws=("none", "mixed"), gen_kw=kw)
+    # content tokens that span lines: the end line/column is not start + length
+    mkw = dict(multiline=True, p_empty=0.3, nterm=4)
+    cases += lf.bnf_cases(rng, max(10, n // 5), tts=("LALR_PAGER",), algo="LR", max_len=3, n_sent=12, n_mut=4,
+                          ws=("none", "mixed"), gen_kw=mkw)
+    glr += lf.bnf_cases(rng, max(8, n // 8), tts=("LALR_RN",), algo="GLR", max_len=3, n_sent=12, n_mut=4,
+                        ws=("mixed",), gen_kw=mkw, glr_scope=True)
+    for layout in ("ws", "comments"):
+        lkw = dict(p_empty=0.3, layout=layout, multiline=True, nterm=4)
+        cases += lf.bnf_cases(rng, max(4, n // 16), tts=("LALR_PAGER",), algo="LR", max_len=3, n_sent=10, n_mut=3,
+                              ws=("mixed",), gen_kw=lkw)
+        glr += lf.bnf_cases(rng, max(4, n // 16), tts=("LALR_RN",), algo="GLR", max_len=3, n_sent=10, n_mut=3,
+                            ws=("mixed",), gen_kw=lkw, glr_scope=True)
     # user Layout rules (whitespace / line comments / nested block comments): the layout parser runs with the parser's
     # own context (LR) resp. GSS head (GLR), so spans after layout are a separate code path from whitespace skipping
     for layout in ("ws", "comments", "nested"):
@@ -88,7 +100,8 @@ def run(rep, tier, seed):
 
 
 def check(rep, cases, glr, proofs_ok):
-    rep.cov["rule"] = ("random BNF grammars with nullable symbols anywhere (p_empty=0.3), terminals of 1-4 UTF-8 bytes; "
+    rep.cov["rule"] = ("random BNF grammars with nullable symbols anywhere (p_empty=0.3), terminals of 1-4 UTF-8 bytes and terminals "
+                       "whose text spans lines; "
                        "LR (LALR_PAGER, model+oracle) and GLR (LALR_RN, oracle on every tree of the forest up to 64); inputs: "
                        "strings up to length 3, sentences, mutations, with whitespace/newline/CRLF/NBSP insertions; the same with user "
                        "Layout rules (whitespace, line comments, nested block comments) for LR and GLR; "
